@@ -246,7 +246,8 @@ static Level fam_ladder(int maxlog) {
 }
 
 // ---- oracles -----------------------------------------------------------------------------------------------------------
-static int g_since_leakcheck = 0;
+static int g_since_leakcheck = 0; static bool g_force_leakcheck = false;
+static void oracle_C02(const struct Case &c0, vf::Stats &st);
 // constructs of the size ladder whose smaller rung already failed (file shared between the driver and its workers)
 static std::string ladder_file(bool parent) { return "/dev/shm/vf_ladder_failed_" + std::to_string(parent ? getpid() : getppid()); }
 static bool ladder_failed(const std::string &construct) { std::ifstream f(ladder_file(false)); std::string l; while (std::getline(f, l)) if (l == construct) return true; return false; }
@@ -302,10 +303,25 @@ static void oracle_C02(const Case &c0, vf::Stats &st) {
   if (!r.generated_correctly) st.nontrivial.insert(c0.hash());
   if (!r.errors.empty() && r.errors.size() >= 2) st.sample("{\"files\":" + vf::jmap(c.tag.empty() ? c.files : Files{}) + ",\"main\":" + vf::jstr(c.main) + ",\"tag\":" + vf::jstr(c.tag) + ",\"errors\":" + S(r.errors.size()) + ",\"first_error\":" + vf::jstr(r.errors[0].file + ":" + S(r.errors[0].line) + " " + r.errors[0].message) + "}", 3);
 #if defined(__SANITIZE_ADDRESS__)
-  if (++g_since_leakcheck >= 64 || !c.tag.empty()) {
-    g_since_leakcheck = 0;
-    if (__lsan_do_recoverable_leak_check()) { st.violation("leak-near:" + key, "LeakSanitizer reports a leak in the batch of 64 compilations ending with this case", cj); }
-    st.add("leak_checks");
+  // LeakSanitizer: once per batch of 64 compilations (a check costs a stop-the-world scan). When a batch leaks, its inputs
+  // are re-run one by one in fresh processes with a check after each, so that the leaking input is identified exactly
+  // and the replay of that one input reproduces it. Later reports in this process would repeat the leak, so checking stops.
+  static bool leaked = false; static std::vector<Case> recent;
+  if (g_force_leakcheck) { if (__lsan_do_recoverable_leak_check()) st.violation("leak:" + key, "LeakSanitizer reports memory leaked by this compilation (allocation stacks on stderr of the replay)", cj); return; }
+  if (!leaked) {
+    recent.push_back(c0);
+    if (recent.size() >= 64 || !c.tag.empty()) {
+      st.add("leak_checks");
+      if (__lsan_do_recoverable_leak_check()) {
+        leaked = true; bool found = false;
+        for (auto &rc : recent) {
+          std::string how = vf::run_isolated([&]() { g_force_leakcheck = true; vf::Stats s2; oracle_C02(rc, s2); return s2.nviol ? 3 : 0; }, 120);
+          if (how == "exit 3") { st.violation("leak:" + rc.key(), "LeakSanitizer reports memory leaked by this compilation (allocation stacks on stderr of the replay)", rc.json()); found = true; break; }
+        }
+        if (!found) st.violation("leak-in-batch-ending:" + key, "LeakSanitizer reports a leak after a batch of " + std::to_string(recent.size()) + " compilations, none of which leaks when run alone in a fresh process", cj);
+      }
+      recent.clear();
+    }
   }
 #endif
 }
@@ -330,6 +346,7 @@ static void oracle_C04(const Case &c, vf::Stats &st) {
 
 int main(int argc, char **argv) {
   drv::Args args = drv::Args::parse(argc, argv); bool T = args.thorough();
+  if (!args.replay.empty()) g_force_leakcheck = true;
   std::vector<Level> L; std::function<void(const Case &, vf::Stats &)> o; double limit = 20;
   Files lib = {{"f", "PROGRAM f IN a DO x0 := a END"}};
   if (args.prop == "C02") {
